@@ -130,6 +130,25 @@ func tablesFamily(ctx *Ctx) error {
 		if known || t%16 == 0 {
 			add("tab marshal "+strconv.Itoa(t), common.HexS(string(txt)), c, known)
 		}
+		// the bytes MarshalText hands out are the caller's: a caller that edits them in place (upper-cases them, say)
+		// must not change what the type marshals to the next time
+		if known || t%16 == 0 {
+			was := string(txt)
+			for i := range txt {
+				txt[i] = 'X'
+			}
+			if len(txt) < cap(txt) {
+				ext := txt[:cap(txt)]
+				for i := len(txt); i < len(ext); i++ {
+					ext[i] = 'X'
+				}
+			}
+			again, _ := typ.MarshalText()
+			js, _ := json.Marshal(typ)
+			if string(again) != was || typ.String() != name || string(js) != strconv.Quote(was) {
+				monitor(fmt.Sprintf("C20: record type %d marshalled to %q; after the caller overwrote the bytes it was given, the type marshals to %q (JSON %s, String %q)", t, was, again, js, typ.String()), c, string(again))
+			}
+		}
 		// categorisation: same on every call, and as the model's first-match reading of the switch
 		c1, c2 := aucoalesce.GetAuditEventType(typ), aucoalesce.GetAuditEventType(typ)
 		if c1 != c2 || c1 != catFirst[t] {
